@@ -5,6 +5,8 @@ subject to the same validity predicate as a typed value; "non-UTF-8" is a kind o
 Differential against spec/grammar.py (which states: line first, then the variable, then
 default / failure) on the env-backed grammar, for every argv shape and every environment state.
 Any call of var_os with a name the grammar did not declare is a violation by itself.
+std::env::var (not used by bpaf today) is modelled as var_os followed by a UTF-8 test on an uninterpreted
+predicate non_utf8(id) that implies invalidity for converted values; replays then use a value ending in byte 0xff.
 """
 import z3
 from . import C01, tok
